@@ -41,7 +41,7 @@ with concurrent.futures.ThreadPoolExecutor(3) as ex:
             for f in ('patch.diff','demo_test.go','notes.md'):
                 shutil.copy(os.path.join(path,f),os.path.join(dst,f))
         meta={'property':pid,'variant':x,'breaks':pid,
-              'needs_to_manifest':'see notes.md (written by the sub-agent that produced the change)',
+              'needs_to_manifest':open(os.path.join(dst if not stored else path,'notes.md')).read()[:1500],
               'confirmed':{'demo_passes_on_clean_tree':m.group(1)=='pass' if m else None,'demo_fails_with_change':m.group(2)=='FAIL' if m else None,'repo_suite_passes_with_change':m.group(3)=='pass' if m else None},
               'ran':'./seeded_eval.sh %s %s (scratch copy of /repo under $TMPDIR, patch applied, go build, demo with/without, go test ./..., then ./check <ID> quick with VERIF_REPO=<copy>)'%(dst,' '.join([pid]+EXTRA.get(pid,[]))),
               'caught_by':{c:msg[:200] for c,msg in caught},'missed_by':missed}
